@@ -8,7 +8,7 @@ TRUSTED = [
     'the repository\'s three debug_assert!s on the sign of the impact amounts are kept as proved assertions (R7), discharged from the assumed sign contract of swap_impact_amount_with_cap',
 ]
 UNVERIFIED = [
-    'ASSUMED CALLEE CONTRACTS (external_body carriers, listed by the mechanical scan): Pool::checked_apply_delta (required trait method: both sides move by their delta or the call fails; store-side pool: C15), BaseMarketExt::checked_apply_delta (the liquidity pool moves by the delta), SwapMarketExt::swap_impact_amount_with_cap (only: the amount has the sign of the usd impact), SwapMarketExt::swap_impact_value, Swap::reassign_values, Balance::pool_delta_with_values and Price::mid (arbitrary results: they only feed the impact VALUE, which conservation does not depend on), the three validations on the cache (fallible, no state change)',
+    'ASSUMED CALLEE CONTRACTS (external_body carriers, listed by the mechanical scan): Pool::checked_apply_delta (required trait method: both sides move by their delta or the call fails; store-side pool: C15), BaseMarketExt::checked_apply_delta (the liquidity pool moves by the delta), SwapMarketExt::swap_impact_value, Swap::reassign_values, Balance::pool_delta_with_values and Price::mid (arbitrary results: they only feed the impact VALUE, which conservation does not depend on), the three validations on the cache (fallible, no state change)',
     'the virtual inventory for swaps is written by execute when present; its own conservation is not part of the statement and not stated',
     '"all market states reachable by deposits, withdrawals and swaps": the contract holds for EVERY pool state, reachability is not used',
     'the store-side wrappers (RevertibleSwapMarket, swap along a path: C44) are not covered here',
@@ -16,6 +16,6 @@ UNVERIFIED = [
 ]
 ASSUMPTIONS = []
 MANIFEST = dict(engine='verus',
-    technique='Verus contracts on the whole Swap::{try_execute, charge_fees, execute} and the Delta constructors, extracted from /repo each run onto carriers for Self and the market (with `&mut`-returning pool accessors), over the C02 fee-split contract and assumed pool-delta contracts; the conservation statement is the postcondition of execute',
+    technique='Verus contracts on the whole Swap::{try_execute, charge_fees, execute} and the Delta constructors, extracted from /repo each run onto carriers for Self and the market (with `&mut`-returning pool accessors), over the C02 fee-split contract, the proved contract of swap_impact_amount_with_cap (same unit as C05) and assumed pool-delta contracts; the conservation statement is the postcondition of execute',
     text='Deductive proof, unbounded over all pool states, input amounts and sides, fee parameters and impact outcomes (positive with and without cap, negative, zero): Swap::try_execute computes new pools that hold exactly the input amount more of the input token (liquidity + swap impact pool + claimable fees) and exactly the paid-out amount less of the output token; Swap::execute writes exactly those pools, so a successful swap increases the market\'s holdings of the input token by exactly the input amount and decreases the holdings of the output token by exactly token_out_amount; a failed swap leaves every pool of the market unchanged (the only fallible step precedes every write).',
-    note='The callee contracts listed as assumed (pool delta application, impact amount sign) are not proved here.')
+    note='The callee contracts listed as assumed (pool delta application, impact value) are not proved here; swap_impact_amount_with_cap is proved in this run.')
